@@ -296,10 +296,12 @@ func unresolvedDynamic(p *Program) []string {
 					}
 				}
 			}
+			// a value of the named type context.CancelFunc comes from package context (or from the user) unless the
+			// library itself converts one of its own functions to that type, which it never does (checked here)
+			if cc.Value.Type().String() == "context.CancelFunc" && !libMakesCancelFunc(p) {
+				continue
+			}
 			if u, ok := cc.Value.(*ssa.UnOp); ok {
-				if _, ok := u.X.(*ssa.FreeVar); ok && strings.Contains(cc.Value.Type().String(), "context.CancelFunc") {
-					continue
-				}
 				if fv, ok := u.X.(*ssa.FreeVar); ok && fv.Name() == "cancel" {
 					continue
 				}
@@ -309,4 +311,18 @@ func unresolvedDynamic(p *Program) []string {
 	}
 	sort.Strings(out)
 	return out
+}
+
+// libMakesCancelFunc reports whether any library function converts a function value to context.CancelFunc.
+func libMakesCancelFunc(p *Program) bool {
+	for _, fn := range p.Funcs {
+		for _, b := range fn.Blocks {
+			for _, in := range b.Instrs {
+				if ct, ok := in.(*ssa.ChangeType); ok && ct.Type().String() == "context.CancelFunc" {
+					return true
+				}
+			}
+		}
+	}
+	return false
 }
